@@ -163,6 +163,18 @@ Proof.
     destruct (f x); [|discriminate]. injection Hs as <-.
     apply enc_int_length in Eh. rewrite app_length, Eh, <- wbytes_wN. lia.
   - intros c v b Hs. cbn [min_size]. lia.
+  - intros c v b Hs. cbn [min_size]. lia.
+  - intros c v b Hs. cbn [ser min_size] in *.
+    destruct (ctx_key c f) as [k|]; [|discriminate].
+    destruct (ctx_pick k opts) as [[a|]|]; try discriminate.
+    + destruct (aenc_s a v); [|discriminate]. eapply IHs; eassumption.
+    + eapply IHs; eassumption.
+  - intros c v b Hs. cbn [ser min_size] in *.
+    destruct v as [| | | | | | | | |kvs]; try discriminate.
+    destruct (flag_or tbl (map (fun kv => VName (fst kv)) kvs)) as [z|]; [|discriminate].
+    destruct (enc_int e ip z) as [h|] eqn:Eh; [|discriminate].
+    destruct (ser_choices (map (fun c' => (fst (fst c'), ser e (snd c') c)) cs) kvs); [|discriminate].
+    injection Hs as <-. apply enc_int_length in Eh. rewrite app_length, Eh, <- wbytes_wN. lia.
 Qed.
 
 (* ---------- calc_size / exact_size ---------- *)
@@ -224,6 +236,10 @@ Proof.
   - destruct rc; [discriminate|].
     cbn [ser] in Hs. destruct v; try discriminate. eapply ser_fields_sz; eassumption.
   - cbn [ser] in Hs. destruct (aenc a v); [|discriminate]. eapply IHs; eassumption.
+  - cbn [ser] in Hs. destruct (ctx_key c f); [|discriminate].
+    destruct (ctx_pick o opts) as [[a|]|]; try discriminate.
+    + destruct (aenc_s a v); [|discriminate]. eapply IHs; eassumption.
+    + eapply IHs; eassumption.
 Qed.
 
 Theorem exact_size_ok e s : szg_at exact_size e s.
@@ -245,4 +261,8 @@ Proof.
   - cbn [ser] in Hs. destruct v; try discriminate. eapply ser_seq_sz; eassumption.
   - cbn [ser] in Hs. destruct v; try discriminate. eapply ser_fields_sz; eassumption.
   - cbn [ser] in Hs. destruct (aenc a v); [|discriminate]. eapply IHs; eassumption.
+  - cbn [ser] in Hs. destruct (ctx_key c f); [|discriminate].
+    destruct (ctx_pick o opts) as [[a|]|]; try discriminate.
+    + destruct (aenc_s a v); [|discriminate]. eapply IHs; eassumption.
+    + eapply IHs; eassumption.
 Qed.
